@@ -73,6 +73,17 @@ MUTANTS = [
     ('polynomial.py', "while p1 < len(fl1) or p2 < len(fl2):", "while p1 < len(fl1) and p2 < len(fl2):", 'poly', 'post __mul__'),
     ('polynomial.py', "if f2 is None or (f1 is not None and f1 < f2):", "if f2 is None or (f1 is not None and f1 > f2):", 'poly', 'pass'),   # misses common factors, same value
     ('polynomial.py', "(ea is not None and ea < eb)", "(ea is not None and ea <= eb)", 'poly', 'pass'),       # equivalent: ties may go either way
+    # ---- harmless refactorings: must stay green (no VIOLATION); out-of-subset is acceptable (undecided), refutation is a false alarm
+    ('codegen.py', "            termstr = vx * vy if sign > 0 else (- vx * vy)\n            if key_out in res:\n                res[key_out] += termstr\n            else:\n                res[key_out] = termstr",
+     "            term = vx * vy if sign > 0 else (- vx * vy)\n            if key_out not in res:\n                res[key_out] = term\n            else:\n                res[key_out] = res[key_out] + term", 'codegen', 'pass'),
+    ('codegen.py', "        if (sign := sign_func((kx, ky))):\n            key_out = keyout_func(kx, ky)\n            if filter_func and not filter_func(kx, ky, key_out): continue",
+     "        sign = sign_func((kx, ky))\n        if sign:\n            key_out = keyout_func(kx, ky)\n            if filter_func is not None and not filter_func(kx, ky, key_out):\n                continue", 'codegen', 'pass'),
+    ('codegen.py', "    return x * y * ~x\n", "    xy = x * y\n    return xy * ~x\n", 'compose', 'pass'),
+    ('operator_dict.py', "            values_out = func(mv1.values(), mv2.values())\n        else:", "            vals1, vals2 = mv1.values(), mv2.values()\n            values_out = func(vals1, vals2)\n        else:", 'dispatch', 'pass'),
+    ('operator_dict.py', "        keys_out, func = self[mv1.keys(), mv2.keys()]\n        issymbolic = (mv1.issymbolic or mv2.issymbolic)", "        issymbolic = (mv1.issymbolic or mv2.issymbolic)\n        keys_out, func = self[mv1.keys(), mv2.keys()]", 'dispatch', 'pass'),
+    ('polynomial.py', "            i = 1\n            j = 1\n            while i < len(A) or j < len(B):", "            j = 1\n            i = 1\n            while i < len(A) or j < len(B):", 'poly', 'pass'),
+    ('polynomial.py', "        al = len(self)\n        bl = len(other)\n        for ai, bi in itertools.product(range(0, al), range(0, bl)):", "        for ai, bi in itertools.product(range(len(self)), range(len(other))):", 'poly', 'pass'),
+    ('multivector.py', "        return self.algebra.sub(other, self)", "        alg = self.algebra\n        return alg.sub(other, self)", 'delegation', 'pass'),
 ]
 
 
@@ -105,6 +116,8 @@ def build_group(H, group):
         AC.vc_new(H)
     elif group == 'tape':
         T.vc_tape_operators(H)
+    elif group == 'compose':
+        U.vc_compositions(H)
     elif group == 'poly':
         P.vc_compare(H); P.vc_poly_add(H); P.vc_rational(H); P.vc_zero_tests(H); P.vc_poly_mul(H)
     else:
